@@ -5,6 +5,7 @@ import SimVerif.Driver.Feat
 import SimVerif.Driver.Geom
 import SimVerif.Driver.Store
 import SimVerif.Driver.Trk
+import SimVerif.Driver.Kf
 open SimVerif SimVerif.Wire SimVerif.Driver
 
 structure DState where
@@ -22,6 +23,7 @@ def step (st : DState) (line : String) : DState × String :=
   | "track" :: args => let (s, r) := StoreD.handleTrack st.store args impl; ({ st with store := s }, r)
   | "store" :: args => let (s, r) := StoreD.handleStore st.store args impl; ({ st with store := s }, r)
   | "trk" :: args => let (s, r) := TrkD.handle st.trk args impl; ({ st with trk := s }, r)
+  | "kf" :: args => (st, KfD.handle args impl)
   | "box" :: args => (st, GeomD.handleBox args impl)
   | "geom" :: args => (st, GeomD.handleGeom args impl)
   | "feat" :: args => (st, FeatD.handle args impl)
